@@ -1,0 +1,77 @@
+//! Verification-only hooks, compiled only with `--cfg kismet_verif`.
+//!
+//! They let an external test harness script the two sources of
+//! randomness in Kismet (the maintenance trigger's countdown draws and
+//! the random shard picked for extra maintenance), per thread, so that
+//! generated histories replay exactly.  With an empty script the
+//! library behaves as usual.
+use std::cell::RefCell;
+use std::collections::VecDeque;
+
+struct Script {
+    queue: VecDeque<u64>,
+    // When set, an exhausted queue keeps returning this value.
+    default: Option<u64>,
+}
+
+std::thread_local! {
+    static TRIGGER_DRAWS: RefCell<Script> = const { RefCell::new(Script { queue: VecDeque::new(), default: None }) };
+    static SHARD_DRAWS: RefCell<Script> = const { RefCell::new(Script { queue: VecDeque::new(), default: None }) };
+    static TRIGGER_DRAW_COUNT: RefCell<u64> = const { RefCell::new(0) };
+}
+
+fn draw(script: &RefCell<Script>) -> Option<u64> {
+    let mut script = script.borrow_mut();
+    match script.queue.pop_front() {
+        Some(x) => Some(x),
+        None => script.default,
+    }
+}
+
+/// Replaces the calling thread's script of trigger countdown draws.
+pub fn script_trigger(draws: impl IntoIterator<Item = u64>, default: Option<u64>) {
+    TRIGGER_DRAWS.with(|s| {
+        *s.borrow_mut() = Script {
+            queue: draws.into_iter().collect(),
+            default,
+        }
+    });
+}
+
+/// Replaces the calling thread's script of random shard draws.
+pub fn script_shards(draws: impl IntoIterator<Item = u64>, default: Option<u64>) {
+    SHARD_DRAWS.with(|s| {
+        *s.borrow_mut() = Script {
+            queue: draws.into_iter().collect(),
+            default,
+        }
+    });
+}
+
+/// Sets the calling thread's maintenance countdown (0 is the state
+/// of a fresh thread).
+pub fn set_trigger_countdown(value: u64) {
+    crate::trigger::verif_set_counter(value);
+}
+
+/// Returns the calling thread's maintenance countdown.
+pub fn trigger_countdown() -> u64 {
+    crate::trigger::verif_get_counter()
+}
+
+/// Returns the number of scripted trigger draws consumed by this thread.
+pub fn trigger_draws_consumed() -> u64 {
+    TRIGGER_DRAW_COUNT.with(|c| *c.borrow())
+}
+
+pub(crate) fn draw_trigger() -> Option<u64> {
+    let ret = TRIGGER_DRAWS.with(draw);
+    if ret.is_some() {
+        TRIGGER_DRAW_COUNT.with(|c| *c.borrow_mut() += 1);
+    }
+    ret
+}
+
+pub(crate) fn draw_shard() -> Option<u64> {
+    SHARD_DRAWS.with(draw)
+}
